@@ -493,7 +493,7 @@ impl Model {
         self.ghosts.remove(&k);
         self.live.insert(
             k,
-            MEntry { value: v, ttl, lo: ttl.map(|t| now + t), hi: ttl.map(|t| now + t) },
+            MEntry { value: v, ttl, lo: ttl.map(|t| now.saturating_add(t)), hi: ttl.map(|t| now.saturating_add(t)) },
         );
     }
     /// returns whether the key is (definitely) live
@@ -512,7 +512,7 @@ impl Model {
             e.value = v;
             if let (Some(t), Some(hi)) = (e.ttl, e.hi) {
                 // reading B: update restarts the TTL
-                e.hi = Some(hi.max(now + t));
+                e.hi = Some(hi.max(now.saturating_add(t)));
             }
         }
     }
@@ -1378,7 +1378,14 @@ pub fn gen_random(rng: &mut Rng) -> Hist {
         let op = if r < 20 {
             Op::Put { k: rng.below(3), v: gen_value(rng, feat, 2) }
         } else if r < 32 {
-            let ttl = if rng.chance(3, 4) { main_ttl } else { *rng.pick(&[1u64, 2, 3, 5, 10]) };
+            // (one TTL in 12 is "for ever": u64::MAX ms, or a value whose sum with the clock overflows)
+            let ttl = if rng.chance(1, 12) {
+                *rng.pick(&[u64::MAX, u64::MAX - 1_000, 1u64 << 63, u64::MAX - 1_790_000_000_000])
+            } else if rng.chance(3, 4) {
+                main_ttl
+            } else {
+                *rng.pick(&[1u64, 2, 3, 5, 10])
+            };
             Op::PutTtl { k: rng.below(3), v: gen_value(rng, feat, 2), ttl }
         } else if r < 42 {
             Op::Update { k: rng.below(3), v: gen_value(rng, feat, 2) }
